@@ -93,6 +93,24 @@ theorem report_own_directory (invs : List (Bytes × Bool × Int × Bool × Bool)
 theorem kill_seen (w : World) (a : Bytes) (hl : w.lock = some a) : alive (kill w) a = false := by
   simp [kill, hl, alive]
 
+/-- **Ended by robsd-kill, the lock is gone afterwards** (and no longer
+    immutable), the report of the terminated step is written to the
+    invocation's own directory, mailed once in the background: the immutable
+    flag only tells the run to stop, it does not keep `lock_release` from
+    releasing. -/
+theorem killed_lock_released (w : World) (a : Bytes) (err : Int) (dt : Bool) (hl : w.lock = some a) (he : err ≠ 0) :
+    (killed w a err dt).lock = none ∧ (killed w a err dt).immutable = false ∧
+    (killed w a err dt).reports = w.reports ++ [(a, a)] ∧
+    (killed w a err dt).mails = (if dt then w.mails ++ [a] else w.mails) := by
+  have h1 : (err != 0) = true := by simpa using he
+  simp [killed, kill, trapExit, release, hl, h1]
+
+/-- and the next invocation is accepted -/
+theorem after_kill_next_accepted (w : World) (a b : Bytes) (err : Int) (dt : Bool) (hl : w.lock = some a) (he : err ≠ 0) :
+    (acquire (killed w a err dt) b).2 = true ∧ (acquire (killed w a err dt) b).1.lock = some b := by
+  obtain ⟨h1, h2, _, _⟩ := killed_lock_released w a err dt hl he
+  simp [acquire, mayAcquire, writeLock, h1, h2]
+
 /-- both invocations read the lock before either writes it: both proceed -/
 theorem acquire_not_atomic (a b : Bytes) (hab : a ≠ b) :
     let w : World := {}
@@ -102,6 +120,7 @@ theorem acquire_not_atomic (a b : Bytes) (hab : a ≠ b) :
 
 example : invoke {} [65] false 0 true true = ({ reports := [([65], [65])], mails := [[65]] }, 0) := by decide
 example : invoke { lock := some [65] } [66] true 0 false true = ({ lock := some [65] }, 1) := by decide
+example : killed { lock := some [65] } [65] 143 true = { reports := [([65], [65])], mails := [[65]] } := by decide
 
 end C11Lock
 end Robsd
